@@ -77,6 +77,26 @@ func (atxn *AllocTxn) Modified() bool {
 	return atxn.Op.NDirty() > 0 || len(atxn.allocInums) > 0 || len(atxn.allocBnums) > 0
 }
 
+// NBitmapBlocks returns the number of bitmap blocks that PreCommit will
+// write for the numbers allocated and freed so far. They are not counted by
+// Op.NDirty() until then, but take room in the journal like any other block.
+func (atxn *AllocTxn) NBitmapBlocks() uint64 {
+	blks := make(map[uint64]bool)
+	for _, n := range atxn.allocInums {
+		blks[atxn.Super.BitmapInodeStart()+uint64(n)/common.NBITBLOCK] = true
+	}
+	for _, n := range atxn.freeInums {
+		blks[atxn.Super.BitmapInodeStart()+uint64(n)/common.NBITBLOCK] = true
+	}
+	for _, n := range atxn.allocBnums {
+		blks[atxn.Super.BitmapBlockStart()+uint64(n)/common.NBITBLOCK] = true
+	}
+	for _, n := range atxn.freeBnums {
+		blks[atxn.Super.BitmapBlockStart()+uint64(n)/common.NBITBLOCK] = true
+	}
+	return uint64(len(blks))
+}
+
 // Write allocated/free bits to the on-disk bit maps
 func (atxn *AllocTxn) PreCommit() {
 	util.DPrintf(1, "commitBitmaps: alloc inums %v blks %v\n", atxn.allocInums,
